@@ -27,6 +27,13 @@ Theorem server_chain_agrees_partial : forall c s o, negotiate c s = Ok o ->
   vw_server_chain (oc_client o) = vw_server_chain (oc_server o).
 Proof. exact server_chain_agrees. Qed.
 
+(* with /repo edfc2c2 (flag regenerated from the tree) the DHE_DSS exception is gone: the server chain agrees
+   whenever a certificate was used at all (no PSK) *)
+Theorem server_chain_agrees_if_repaired : forall c s o, negotiate c s = Ok o -> fix_dhe_dsa_chain = true ->
+  fl_psk (oc_flight o) = None ->
+  vw_server_chain (oc_client o) = vw_server_chain (oc_server o).
+Proof. exact server_chain_agrees_repaired. Qed.
+
 Theorem client_chain_agrees_partial : forall c s o, negotiate c s = Ok o ->
   (vw_version (oc_server o) <= 3 \/ fl_cert_req (oc_flight o) <> None \/ cl_cert c = None) ->
   vw_client_chain (oc_client o) = vw_client_chain (oc_server o).
